@@ -60,37 +60,7 @@ def expand(t, env=None):
     return ['m', [[expand(a, env), expand(b, env)] for a, b in t[1]], t[2]]
 
 
-@st.composite
-def share(draw, t):
-    """Introduce 1-3 anchor/alias pairs into tree t."""
-    info = []
-    for gi in range(draw(st.integers(1, 3))):
-        subs = [(p, s) for p, s in T.subtrees(t) if p and s[0] in 'sqm'
-                and T.get_at(t, p[:-1])[0] != '&']
-        if len(subs) < 2:
-            break
-        mode = draw(st.sampled_from(['equal', 'copy', 'copy']))
-        name = 'n%d' % gi
-        if mode == 'equal':
-            groups = {}
-            for idx, (p, s) in enumerate(subs):
-                groups.setdefault(repr(s), []).append(idx)
-            cands = [g for g in groups.values() if len(g) >= 2]
-            if not cands:
-                mode = 'copy'
-            else:
-                g = draw(st.sampled_from(cands))
-                i, j = g[0], draw(st.sampled_from(g[1:]))
-        if mode == 'copy':
-            i = draw(st.integers(0, len(subs) - 2))
-            j = draw(st.integers(i + 1, len(subs) - 1))
-        (p, s), (q, s2) = subs[i], subs[j]
-        if q[:len(p)] == p or '&' in repr(s) or '*' in repr(s) or '*' in repr(s2) or '&' in repr(s2):
-            continue
-        t = T.set_at(t, q, ['*', name])
-        t = T.set_at(t, p, ['&', name, s])
-        info.append({'mode': mode, 'kind': s[0], 'from': list(p), 'to': list(q)})
-    return t, info
+share = gen.share
 
 
 @st.composite
